@@ -1,2 +1,3 @@
 import OtelVerif.Props.C09
 import OtelVerif.Props.C10
+import OtelVerif.Props.C20
